@@ -8,7 +8,7 @@ from ..interp import cval, has_const
 from ..source import norm_text
 from .C01 import check_cumulative
 from .formula import check_degree, check_label, label_obligations, match_mono
-from .geo import all_geos, geo_text, kind_errors, uniq_events
+from .geo import all_geos, geo_text, kind_errors, under, uniq_events
 
 TRAJ = 'gemdat.trajectory.Trajectory'
 TM = 'gemdat.metrics.TrajectoryMetrics'
@@ -23,7 +23,7 @@ def check(ctx):
     ctx.floor('R3', 3)
     fi = ctx.fn(f'{TRAJ}.mean_squared_displacement')
     it = ctx.entry(fi.qualname)
-    inside = lambda f: f.qualname == fi.qualname
+    inside = under(fi.qualname)
     nerr = kind_errors(ctx, 'R1', it, inside)
     # the quantity transformed is Cartesian and comes from the cumulative displacements
     for e in uniq_events(it, {'to_cart'}, inside):
@@ -50,7 +50,7 @@ def check(ctx):
     ctx.ob('R3', ft, 'return value', ok, msg if ok is not True else 'mean(d_final^2) * angstrom^2 / (2 * dimensions * n_frames * time_step)')
     # the mean runs over the last frame of distances_from_base_position
     idx_ok = None
-    for e in uniq_events(it2, {'index'}, lambda f: f.qualname == ft.qualname):
+    for e in uniq_events(it2, {'index'}, under(ft.qualname)):
         b = e['base']
         if b is not None and b.geo == ('DIST',) and e.get('items'):
             items = e['items']
@@ -63,4 +63,4 @@ def check(ctx):
     else:
         ctx.ob('R3', ft, idx_ok[1], idx_ok[0], 'distance at the last frame for every atom' if idx_ok[0] else
                'the squared displacement is not taken at the final frame')
-    label_obligations(ctx, 'R3', it2, lambda f: f.qualname == ft.qualname)
+    label_obligations(ctx, 'R3', it2, under(ft.qualname))
